@@ -96,6 +96,9 @@ struct IMap {
     virtual bool contains( long k ) = 0;
     virtual bool extract_min( long&, long& ) { return false; }
     virtual bool extract_max( long&, long& ) { return false; }
+    // tie S on the machine side (lean/CdsVerif/Props/C18Reach.lean): the raw structure of the real object at the quiescent
+    // end of the case as ONE `SNAP …` line in the format of clients/snap.cpp; default: none
+    virtual void dump( std::ostream& ) {}
 };
 
 struct GenCfg {
@@ -531,6 +534,35 @@ struct IntrSplitNamed : IMap {
     bool erase( long k, long& v ) override { return s->erase( k, [&v]( sl_item const& item ) { v = item.val; } ); }
     bool find( long k, long& v ) override { return s->find( k, [&v]( sl_item& item, long ) { v = item.val; } ); }
     bool contains( long k ) override { return s->contains( k ); }
+    // main thread, quiescent: `SNAP split { <soKey> <isDummy> <key> <marked> }*` as clients/snap.cpp prints it (a node is a
+    // dummy iff the bucket table refers to it; its key is the bucket number).  The loads are kept out of the trace
+    // (set_quiet): the replayed machine must not see them.
+    void dump( std::ostream& out ) override
+    {
+        typedef ci::split_list::node< ci::michael_list::node<cds::gc::HP> > P;
+        set_quiet( true );
+        std::vector<std::pair<P*, size_t>> dummies;
+        size_t cap = s->m_Buckets.capacity();
+        for ( size_t i = 0; i < cap; ++i ) {
+            auto* d = s->m_Buckets.bucket( i );
+            if ( d ) dummies.push_back( std::make_pair( static_cast<P*>( d ), i ));
+        }
+        out << "SNAP split";
+        unsigned n = 0;
+        for ( auto* cur = s->m_List.m_pHead.load( atomics::memory_order_acquire ).ptr(); cur && n < 100000; ++n ) {
+            auto nx = cur->m_pNext.load( atomics::memory_order_acquire );
+            P* a = static_cast<P*>( cur );
+            bool dummy = false;
+            long key = 0;
+            for ( auto const& e : dummies )
+                if ( e.first == a ) { dummy = true; key = long( e.second ); break; }     // lowest bucket number
+            if ( !dummy ) key = static_cast<sl_item*>( a )->key;
+            out << ' ' << a->m_nHash << ' ' << ( dummy ? 1 : 0 ) << ' ' << key << ' ' << ( nx.bits() ? 1 : 0 );
+            cur = nx.ptr();
+        }
+        out << '\n';
+        set_quiet( false );
+    }
 };
 
 // ---------------------------------------------------------------- FeldmanHashSet / FeldmanHashMap
@@ -889,7 +921,7 @@ struct Fixture {
     void thread_begin( int ) { set_quiet( true ); cds::threading::Manager::attachThread(); set_quiet( false ); }
     void thread_end( int ) { set_quiet( true ); cds::threading::Manager::detachThread(); set_quiet( false ); }
     std::vector<long> exec( int, Op const& op ) { return map_exec( *m, op ); }
-    void finish( std::ostream& out ) { if ( info ) out << "# " << info() << '\n'; }
+    void finish( std::ostream& out ) { if ( info ) out << "# " << info() << '\n'; m->dump( out ); }
 };
 
 int main( int argc, char** argv )
